@@ -146,14 +146,29 @@ def extract_and_build_vm():
         return True, out
 
 def cargo_build():
-    """(re)builds the harness against /repo's current working tree. Returns (ok, hooks_on, output)."""
+    """(re)builds the harness against the repository's current working tree (/repo, or the scratch
+    copy named by VERIF_REPO for mutation experiments). Returns (ok, hooks_on, output)."""
+    global VH
     with Lock("cargo"):
+        import shutil
         hd = os.path.join(ROOT, "harness")
+        repo = os.environ.get("VERIF_REPO", REPO)
+        target = TARGET
+        if repo != REPO:
+            tag = hashlib.sha1(repo.encode()).hexdigest()[:8]
+            alt = os.path.join(CACHE, "harness-" + tag)
+            if os.path.exists(alt):
+                shutil.rmtree(alt)
+            shutil.copytree(hd, alt, ignore=shutil.ignore_patterns("target"))
+            ct = os.path.join(alt, "Cargo.toml")
+            open(ct, "w").write(open(ct).read().replace('path = "/repo"', 'path = "%s"' % repo))
+            hd = alt
+            target = os.path.join(CACHE, "target-" + tag)
+            VH = os.path.join(target, "debug", "vh")
         lock = os.path.join(hd, "Cargo.lock")
-        if not os.path.exists(lock) and os.path.exists(os.path.join(REPO, "Cargo.lock")):
-            import shutil
-            shutil.copy(os.path.join(REPO, "Cargo.lock"), lock)
-        env = {"CARGO_TARGET_DIR": TARGET, "RUSTFLAGS": "--cfg calamine_verif"}
+        if not os.path.exists(lock) and os.path.exists(os.path.join(repo, "Cargo.lock")):
+            shutil.copy(os.path.join(repo, "Cargo.lock"), lock)
+        env = {"CARGO_TARGET_DIR": target, "RUSTFLAGS": "--cfg calamine_verif"}
         rc, out = sh(["cargo", "build", "--offline", "--quiet"], cwd=hd, timeout=1800, env=env)
         if rc == 0:
             return True, True, out
